@@ -151,4 +151,25 @@ PROPS['C22'] = lower_prop('Special-mode injections are never silently lost', ['O
     'opcodes rejected); the model of the resolution is compared with the code on every case and the oracle requires every accepted probe id in the output; one known finding (F15).',
     'Lean 4 proof + differential correspondence check')
 
+PROPS['C24'] = {
+    'title': 'Opcode helpers emit exactly the named instruction',
+    'props_files': ['Orca/Props/C24.lean'], 'translator': True,
+    'families': [{'name': 'helpers', 'quick_n': 2400, 'thorough_n': 200000}],
+    'rule': 'case k exercises helper number k mod 200 (so every helper is called at least 12 times in the quick tier) with immediates drawn per parameter type from boundary patterns '
+            '(0, 1, 2^(w-1)-1, 2^(w-1), 2^w-2, 2^w-1) and random ones, quiet / signalling / negative NaN patterns for floats, all 25 value types and function types as block types, '
+            'abstract and concrete heap types, memargs with both memories; through FunctionBuilder, ModuleIterator and FunctionModifier; distinct by case line; every case is non-trivial',
+    'trusted': COMMON_TRUST + [
+        'translator/gen_helpers.py (regular expressions over src/opcode.rs, fails closed on any helper whose body is not `self.inject(Operator::X {..}); self` with the eight field-expression shapes it knows); '
+        'it also checks in the wasmparser source that Ieee32::from(f32) / Ieee64::from(f64) are plain bit copies',
+        'the dictionary Orca/Model/HelperSpec.lean (helper name -> instruction), written and reviewed by hand; the harness oracle re-derives the expected text mnemonic from the helper name by an independent rule and compares it with wasmprinter\'s rendering of the decoded instruction',
+        'modelled, not verified: the conversion of BlockType / HeapType arguments (wirm types -> wasmparser types) is carried as an opaque code in the model and checked per case by the correspondence (all value types incl. non-nullable references); Rust `as` casts between u32/i32 and u64/i64 are two\'s-complement reinterpretation (language definition)',
+    ],
+    'assumptions': ['function / global / memory immediates are valid ids of the test module (encode remaps them; the remapping itself is C06-C08)'],
+    'design_ref': 'DESIGN.md section 6, C24',
+    'level_text': 'Lean 4 theorems over tables regenerated from src/opcode.rs on every run: for each of the 200 helpers the injected variant is the instruction its name denotes (committed dictionary), the i-th '
+                  'parameter fills the i-th immediate through a conversion that provably preserves the bit pattern (to_bits for floats, two\'s-complement reinterpretation for u32_const / u64_const); '
+                  'tied to the code additionally by calling every helper through three API paths and decoding the encoded module.',
+    'technique': 'Lean 4 proof by cases over tables regenerated from the source (translator) + bit-pattern lemmas + differential correspondence check',
+}
+
 ALL_IDS = ['C%02d' % i for i in range(1, 31)]
